@@ -112,6 +112,13 @@ def main():
             "obligations": proof["obligations"], "discharged": proof["discharged"],
             "forbidden": proof["forbidden"], "coq_error": proof.get("log", "")}), "proof"))
 
+    if tier == "thorough" and proof["build_ok"] and not args.dev_skip_proof:
+        ok, ax, tail = common.coqchk(pid)
+        proof["coqchk"] = {"ok": ok, "axioms": ax}
+        if not ok:
+            violations.append((common.write_replay(pid, "coqchk", {
+                "property": pid, "ops": [], "theorem_file": "coq/Properties/%s.v" % pid, "coqchk": tail}), "proof"))
+
     rng = random.Random(seed * 1000003 + sum(map(ord, pid)))
     n = args.n or (P["quick_n"] if tier == "quick" else P["thorough_n"])
     progs = []
@@ -228,6 +235,7 @@ def main():
             ["Print Assumptions: %d theorem(s) closed under the global context; axioms: %s"
              % (proof.get("closed", 0), ", ".join(proof["axioms"]) or "none")],
             "theorems": proof["theorems"],
+            "coqchk": proof.get("coqchk", "not run (quick tier)"),
             "programs": stats["programs"], "traces_validated_against_impl":
                 stats["programs"] - stats["tie_mismatch"] - stats["impl_crash"],
             "exact_safe": stats["exact_safe"], "tie_mismatch": stats["tie_mismatch"],
